@@ -8,8 +8,10 @@ order (part 3); corollaries for re-add, check-out, check-in, release, removal.
 Tie: generated histories of all operations over a small URL alphabet are run through
 the real SQLiteURLTable (in memory, on disk with close()+reopen, and behind
 URLTableHookWrapper); the model is evaluated inside Coq (vm_compute) on the same
-histories and its canonical rendering (Model/UrlTableSer.v) is compared character for
-character with the same rendering of what the implementation returned.  The
+histories and its canonical rendering (Model/UrlTableSer.v: per step the return value and
+the records of get_all() that changed) is compared inside Coq, character for character,
+with the same rendering of what the implementation returned; histories that differ are
+rendered again to locate the first differing step.  The
 reference is also written in Python (class Spec) and evaluated directly on the
 implementation's answers - that is the property predicate used for impl_violations,
 search and replay."""
@@ -41,7 +43,9 @@ ASSUMPTIONS = [
     'single connection: no concurrent writer on the same database file',
 ]
 
-GOOD = ['http://a/', 'http://a/b', 'http://b/', 'HTTP://A/b c', 'ftp://h/é', 'mailto:x', '//x', 'http://a/?q=1']
+# keys that differ only in case, and keys that are SQL LIKE patterns of other keys, must stay distinct keys
+GOOD = ['http://a/', 'http://a/b', 'http://b/', 'http://a/B', 'HTTP://A/b c', 'http://a/_', 'ftp://h/é', 'mailto:x', '//x',
+        'http://a/?q=1', 'http://%']
 BAD = ['', 'http://', 'http://[']
 ALPHABET = GOOD + BAD
 REFS = GOOD[:4] + ['', 'p', 'http://zz/']          # parent / root values (any string; '' is falsy)
@@ -563,7 +567,7 @@ def correspondence(ctx):
         cases = _histories(r, 2400, 60) + _histories(r, 480, 400)
         per_file = 60
     else:
-        cases = _histories(r, 440, 60) + _histories(r, 8, 200)
+        cases = _histories(r, 320, 60) + _histories(r, 6, 200)
         per_file = 45
     cases = [dict(c) for c in FIXED] + [dict(FIXED[0], mode=m) for m in MODES[2:]] + cases
     results, bad = _impl(cases)
@@ -627,7 +631,7 @@ def correspondence(ctx):
         'evaluations': len(cases),
         'distinct_nontrivial': len(nontriv),
         'rule': 'generated histories (1-60 ops, a few up to %d) of add_many/add_one/check_out/check_in/update_one/release/'
-                'remove_many/remove_one/count/get_one/contains/get_all/add_visits/get_revisit_id/reopen over 8 parseable + 3 '
+                'remove_many/remove_one/count/get_one/contains/get_all/add_visits/get_revisit_id/reopen over 11 parseable + 3 '
                 'unparseable URL strings, batches with internal duplicates and mixed property shapes (None / add_child_url-like / '
                 'empty / arbitrary), run in 4 modes (memory, disk with close+reopen, each also behind URLTableHookWrapper); every '
                 'return value and get_all() after every step compared; non-trivial = the history re-adds a URL whose status is '
@@ -663,11 +667,20 @@ def replay(ctx, data):
 LEVEL_TEXT = ('Coq theorem C14_refines: for EVERY operation history (induction over the history, no bound) and every URL-parser '
               'predicate, the SQL-level model of sqltable.py/sqlmodel.py (ids, UNIQUE/NOT NULL + INSERT OR IGNORE incl. within-batch '
               'duplicates, inserted-row detection by id > max, scalar sub-selects, rowid-ordered scans, rollback on a parse error) '
-              'returns the same values and has the same get_all() after every step as a keyed map with insertion order; corollaries '
-              'C14_readd_preserves, C14_checkout_correct, C14_checkin_increments_by_one, C14_release_exact, C14_only_remove_deletes, '
-              'C14_reopen_identity; all closed under the global context. The SQL-level model is hand-written and tied to the code on '
-              'every run by evaluating it inside Coq (vm_compute) against the real SQLiteURLTable (memory / disk+reopen / behind '
-              'URLTableHookWrapper) on generated histories, comparing every return value and get_all() after every step.')
+              'returns the same values and has the same get_all() after every step as a keyed map with insertion order - this covers '
+              'add_many/add_one, check_out, check_in, update_one, release, remove_many/remove_one, count, get_one, contains, get_all, '
+              'add_visits, get_revisit_id. Corollaries, each for the state after ANY history: C14_stored_once (keys distinct), '
+              'C14_readd_preserves (add_many leaves every existing record identical, reports exactly the keys of the appended records, '
+              'none present before, no duplicates; or rolls back completely), C14_checkout_correct + C14_checkout_match_meaning (NotFound '
+              'exactly when no record has the status and level < bound; else the oldest such record, returned and stored as in_progress, '
+              'nothing else changed), C14_checkin_increments_by_one (status set, try_count + 1 exactly when asked, optional result '
+              'columns, all other columns and records identical), C14_update_one_exact, C14_release_exact (in_progress -> todo, every '
+              'other record identical), C14_only_remove_deletes (remove deletes exactly the given keys; every other operation keeps '
+              'all keys in order), C14_reopen_identity (a reopen step changes no answer; on the model reopening is the identity, the '
+              'on-disk behaviour is carried by the disk-mode correspondence runs); all closed under the global context. The SQL-level '
+              'model is hand-written and tied to the code on every run by evaluating it inside Coq (vm_compute) against the real '
+              'SQLiteURLTable (memory / disk with close+reopen / behind URLTableHookWrapper) on generated histories, comparing every '
+              'return value and get_all() after every step (comparison evaluated inside Coq).')
 LEVEL_NOTE = ('Trusted: Coq kernel + vm_compute; the hand-written SQL-level model and the correspondence harness; SQLite and SQLAlchemy 2.0 '
               'as installed (atomic commit, rowid scan order, ORM bulk INSERT treating None as "column default") - under the SQLAlchemy '
               '<= 1.0 that wpull pins, a None for a NOT NULL column in a mixed-shape batch would be sent as NULL and the row silently '
